@@ -448,6 +448,13 @@ impl<T: Clone> RawTable<T> {
     /// Variant of `clone_from` to use when a hasher is available.
     pub(crate) fn clone_from_with_hasher(&mut self, source: &Self, hasher: impl Fn(&T) -> u64) {
         let _ = self.leftovers.take();
+        // hashbrown's `clone_from_with_hasher` re-uses our allocation if it is large enough, and
+        // assumes that `clear` leaves it without tombstones. But `clear` does nothing for a table
+        // that holds no elements, even if it is still full of tombstones from earlier removals,
+        // and the space accounting then goes wrong (or underflows). Wipe those first.
+        if self.table.is_empty() {
+            self.table.clear_no_drop();
+        }
         self.table.clone_from_with_hasher(&source.table, &hasher);
         // Since we're doing the work of cloning anyway, we might as well carry the leftovers.
         and_carry_with_hasher(&mut self.table, &source.leftovers, hasher);
